@@ -1,6 +1,8 @@
 """Shared monitor for the Gaussian Markov random field model (C11, C12): shadow record of all data fed to a model and
 comparison of its state with an independent reference assembly on that data."""
 import numpy as np
+
+from vf.tx import amax as _amax
 import scipy.sparse as sp
 
 from vf import taps
@@ -92,7 +94,7 @@ def judge_state(ctx, m, where):
         ctx.fail("sample_count_not_conserved", cls=cls, mech=where, got=int(m.n_samples), fed=int(X.shape[0]))
     mean_err = float(np.abs(np.asarray(m.mean_vector, dtype=float) - X.mean(0)).max())
     scale_x = max(1.0, float(np.abs(X).max()))
-    if mean_err > 1e-9 * scale_x:
+    if not (mean_err <= 1e-9 * scale_x):
         ctx.fail("model_mean_is_not_the_sample_mean", cls=cls, mech=mech, err=mean_err)
     R = reference_precision(X, edges, V, k, m.mode, m.bias, m.n_components)
     nrm = max(1e-300, float(np.abs(R).max()))
@@ -101,10 +103,10 @@ def judge_state(ctx, m, where):
         tol = 5e-3 * nrm      # float32 running second moments lose digits by cancellation (6e-4 seen in 20 000 cases)
     e = float(np.abs(Q - R).max())
     ctx.err("precision_vs_reference:" + np.dtype(m.dtype).name + ":" + ("init" if where == "init" else "incremental"), e / nrm)
-    if e > tol:
+    if not (e <= tol):
         ctx.fail("precision_differs_from_the_sum_of_inverted_block_covariances", cls=cls, mech=mech, rel_err=e / nrm,
                  n_components=m.n_components, bias=m.bias, features_per_vertex=k, n_vertices=V)
-    if np.abs(Q - Q.T).max() > tol:
+    if _amax(Q - Q.T) > tol:
         ctx.fail("precision_is_not_symmetric", cls=cls, mech=mech)
     w = np.linalg.eigvalsh((Q + Q.T) / 2.0)
     if w.min() < -max(tol, 1e-8 * nrm) * V * k:
@@ -113,7 +115,7 @@ def judge_state(ctx, m, where):
         for j in range(V):
             if i != j and tuple(sorted((i, j))) not in pairs:
                 blk = Q[i * k:(i + 1) * k, j * k:(j + 1) * k]
-                if np.abs(blk).max() > 0:
+                if _amax(blk) > 0:
                     ctx.fail("precision_couples_vertices_the_graph_does_not_join", cls=cls, mech=mech, pair=[i, j])
                     return
 
